@@ -262,6 +262,8 @@ EXPORT char *_stpncpy_s_chk(char *restrict dest, rsize_t dmax,
                         dest++;
                     }
                 }
+#else
+                *dest = '\0'; /* reached with slen == 0 as well */
 #endif
                 *errp = RCNEGATE(EOK);
                 return orig_dest;
